@@ -81,13 +81,21 @@ Theorem C25_delta_base_asfound_refuted :
 Proof. exact refute_prevdata_race. Qed.
 Print Assumptions C25_delta_base_asfound_refuted.
 
-(* a publisher epoch change ends the subscription with insufficient state and resets every entry *)
-Theorem C25_epoch_flip : forall keep gx s s' ps,
+(* a publisher epoch change ends the subscription of a connection that tracks at least one key
+   (the connections found in the keyed hub) with insufficient state, and resets every entry *)
+Theorem C25_epoch_flip : forall keep gx s s' ps k0,
+  KeysInv s -> s_conn s k0 <> None ->
   step keep gx s AEpochFlip = (s', ps) ->
-  s_sub s' = false /\ (forall k, s_conn s' k = None) /\ (s_sub s = true -> ps = [PUnsub]) /\
+  s_sub s' = false /\ (forall k, s_conn s' k = None) /\ ps = [PUnsub] /\
   (forall k e, s_ent s' k = Some e -> e_ver e = 0 /\ e_data e = false).
 Proof. exact epoch_flip_unsubscribes. Qed.
 Print Assumptions C25_epoch_flip.
+
+(* ... where the hub membership invariant holds along every schedule *)
+Theorem C25_hub_membership : forall keep gx s a s' ps,
+  KeysInv s -> step keep gx s a = (s', ps) -> KeysInv s'.
+Proof. exact step_keys. Qed.
+Print Assumptions C25_hub_membership.
 
 (* non-vacuity: with the guard the refuting schedule ends with a full payload *)
 Example C25_fixed_prevdata_race :
